@@ -89,6 +89,8 @@ end
 
 def DirectivesWF (t : JVal) : Prop := wf t = true
 
+instance (t : JVal) : Decidable (DirectivesWF t) := by unfold DirectivesWF; infer_instance
+
 /-! ## basic facts -/
 
 theorem wfL_mem : ∀ {xs : List JVal}, wfL xs = true → ∀ x ∈ xs, wf x = true
@@ -354,13 +356,13 @@ theorem modeOf_plain_left {sk : List String} {mk : List (String × List JVal)} {
     (hv : ∀ ts, v ≠ .arr ts) : modeOf sk mk k v w = .plain := by
   cases v with
   | arr ts => exact absurd rfl (hv ts)
-  | _ => simp only [modeOf]; split <;> simp
+  | _ => simp only [modeOf]
 
 theorem modeOf_plain_right {sk : List String} {mk : List (String × List JVal)} {k : String} {v w : JVal}
     (hw : ∀ as, w ≠ .arr as) : modeOf sk mk k v w = .plain := by
   cases w with
   | arr as => exact absurd rfl (hw as)
-  | _ => cases v <;> (simp only [modeOf]; split <;> simp)
+  | _ => cases v <;> simp only [modeOf]
 
 theorem cmp_nonarr {sk : List String} {mk : List (String × List JVal)} {k : String} {v w : JVal}
     (hv : ∀ ts, v ≠ .arr ts) (h : exactMatch v w = true ↔ EqMod v w) :
@@ -370,19 +372,17 @@ theorem cmp_nonarr {sk : List String} {mk : List (String × List JVal)} {k : Str
 theorem cmp_arr {sk : List String} {mk : List (String × List JVal)} {k : String} {ts : List JVal} {w : JVal}
     (hlm : ∀ as, ts.length = as.length → (listMatch ts as = true ↔ ListSpec ts as))
     (hkf : ∀ fs as, keyedFwd fs ts as = true ↔ KFSpec fs ts as) :
-    ((match fieldsFor k mk with
-      | some fs =>
-        (match w with
-         | .arr as =>
+    ((match w with
+      | .arr as =>
+        (match fieldsFor k mk with
+         | some fs =>
            if allObj ts && allObj as then keyedFwd fs ts as && keyedBack fs ts as
+           else if sk.contains k then setMatch ts as
            else ts.length == as.length && listMatch ts as
-         | _ => false)
-      | none =>
-        (match w with
-         | .arr as =>
+         | none =>
            if sk.contains k then setMatch ts as
-           else ts.length == as.length && listMatch ts as
-         | _ => false)) = true) ↔ CmpSpec sk mk k (.arr ts) w := by
+           else ts.length == as.length && listMatch ts as)
+      | _ => false) = true) ↔ CmpSpec sk mk k (.arr ts) w := by
   have plainList : ∀ as, modeOf sk mk k (.arr ts) (.arr as) = .plain →
       ((ts.length == as.length && listMatch ts as) = true ↔ CmpSpec sk mk k (.arr ts) (.arr as)) := by
     intro as hm
@@ -391,38 +391,42 @@ theorem cmp_arr {sk : List String} {mk : List (String × List JVal)} {k : String
     constructor
     · intro h; exact ⟨as, rfl, h.1, (hlm as h.1).mp h.2⟩
     · rintro ⟨as', e, hl, hs⟩; cases e; exact ⟨hl, (hlm _ hl).mpr hs⟩
-  have notArr : (∀ as, w ≠ .arr as) → (False ↔ CmpSpec sk mk k (.arr ts) w) := by
-    intro hw
-    rw [cmpSpec_plain (modeOf_plain_right hw), eqmod_arr_iff]
-    exact ⟨False.elim, fun ⟨as, e, _⟩ => hw as e⟩
-  cases hf : fieldsFor k mk with
-  | some fs =>
-    cases w with
-    | arr as =>
+  have setList : ∀ as, modeOf sk mk k (.arr ts) (.arr as) = .set ts as →
+      (setMatch ts as = true ↔ CmpSpec sk mk k (.arr ts) (.arr as)) := by
+    intro as hm
+    rw [cmpSpec_set hm, setMatch_iff]
+  cases w with
+  | arr as =>
+    cases hf : fieldsFor k mk with
+    | some fs =>
       by_cases hc : (allObj ts && allObj as) = true
       · have hm : modeOf sk mk k (.arr ts) (.arr as) = .keyed fs ts as := by
           simp only [modeOf, hf, hc, if_true]
         rw [cmpSpec_keyed hm]
         simp only [hc, if_true, Bool.and_eq_true, hkf, keyedBack_iff]
         exact ⟨fun ⟨h1, h2⟩ => keyed_combine h1 h2, keyed_split⟩
-      · have hm : modeOf sk mk k (.arr ts) (.arr as) = .plain := by
-          simp only [modeOf, hf, hc]; rfl
-        simp only [hc]
-        exact plainList as hm
-    | _ => simpa using notArr (by intro as h; cases h)
-  | none =>
-    cases w with
-    | arr as =>
-      by_cases hc : sk.contains k = true
+      · by_cases hs : sk.contains k = true
+        · have hm : modeOf sk mk k (.arr ts) (.arr as) = .set ts as := by
+            simp only [modeOf, hf, hc, hs, if_true]; rfl
+          simp only [hc, hs, if_true]
+          exact setList as hm
+        · have hm : modeOf sk mk k (.arr ts) (.arr as) = .plain := by
+            simp only [modeOf, hf, hc, hs]; rfl
+          simp only [hc, hs]
+          exact plainList as hm
+    | none =>
+      by_cases hs : sk.contains k = true
       · have hm : modeOf sk mk k (.arr ts) (.arr as) = .set ts as := by
-          simp only [modeOf, hf, hc, if_true]
-        rw [cmpSpec_set hm]
-        simp only [hc, if_true, setMatch_iff]
+          simp only [modeOf, hf, hs, if_true]
+        simp only [hs, if_true]
+        exact setList as hm
       · have hm : modeOf sk mk k (.arr ts) (.arr as) = .plain := by
-          simp only [modeOf, hf, hc]; rfl
-        simp only [hc]
+          simp only [modeOf, hf, hs]; rfl
+        simp only [hs]
         exact plainList as hm
-    | _ => simpa using notArr (by intro as h; cases h)
+  | _ =>
+    rw [cmpSpec_plain (modeOf_plain_right (by intro as h; cases h)), eqmod_arr_iff]
+    simp
 
 /-! ## the comparator decides `EqMod` -/
 
@@ -616,14 +620,15 @@ theorem modeOf_noDir {t : List (String × JVal)} (hn : noDirO t = true) (k : Str
   have h2 : mapKeysOf t = [] := by
     simp only [mapKeysOf, noDirO_lookup_directive hn (show isDirective compareAsMap = true by decide)]
   rw [h1, h2]
-  simp [modeOf, fieldsFor]
+  simp only [modeOf, fieldsFor, List.contains_nil, Bool.false_eq_true, if_false]
+  split <;> rfl
 
 theorem scalarEq_refl : ∀ (s : JVal), isScalar s = true → scalarEq s s = true := by
   intro s h; cases s <;> simp_all [scalarEq, isScalar]
 
 theorem scalarEq_symm : ∀ (s t : JVal), scalarEq s t = scalarEq t s := by
   intro s t
-  cases s <;> cases t <;> simp [scalarEq] <;> (rw [Bool.eq_iff_iff]; simp only [beq_iff_eq]; constructor <;> intro h <;> omega)
+  cases s <;> cases t <;> simp only [scalarEq] <;> exact BEq.comm
 
 theorem eqmod_obj_noDir {t a : List (String × JVal)} (hn : noDirO t = true) :
     EqMod (.obj t) (.obj a) ↔
@@ -664,8 +669,8 @@ theorem eqmod_refl_L : ∀ (xs : List JVal), noDirL xs = true → ∀ x ∈ xs, 
   | [], _, x, hx => by cases hx
   | y :: ys, h, x, hx => by
     simp only [noDirL, Bool.and_eq_true] at h
-    rcases List.mem_cons.mp hx with rfl | hx
-    · exact eqmod_refl _ h.1
+    rcases List.mem_cons.mp hx with e | hx
+    · rw [e]; exact eqmod_refl y h.1
     · exact eqmod_refl_L ys h.2 x hx
 theorem eqmod_refl_O : ∀ (kvs : List (String × JVal)), noDirO kvs = true →
     ∀ k v, lookup k kvs = some v → EqMod v v
@@ -674,7 +679,7 @@ theorem eqmod_refl_O : ∀ (kvs : List (String × JVal)), noDirO kvs = true →
     simp only [noDirO, Bool.and_eq_true] at hn
     simp only [lookup] at h
     split at h
-    · cases h; exact eqmod_refl _ hn.1.2
+    · injection h with h; rw [← h]; exact eqmod_refl v' hn.1.2
     · exact eqmod_refl_O rest hn.2 k v h
 end
 
@@ -685,22 +690,22 @@ end
 inductive Dev : JVal → JVal → Prop
   | leaf {s s' : JVal} : (isScalar s = true ∨ isScalar s' = true) → scalarEq s s' = false → Dev s s'
   | dropKey {o : List (String × JVal)} {k : String} {v : JVal} :
-      lookup k o = some v → Dev (.obj o) (.obj (erase k o))
+      lookup k o = some v → Dev (.obj o) (.obj (JVal.erase k o))
   | addKey {o : List (String × JVal)} {k : String} {v : JVal} :
       lookup k o = none → isDirective k = false → Dev (.obj o) (.obj (o ++ [(k, v)]))
   | swap {xs zs : List JVal} {x y : JVal} :
       ¬ EqMod y x → Dev (.arr (xs ++ x :: y :: zs)) (.arr (xs ++ y :: x :: zs))
   | inKey {o : List (String × JVal)} {k : String} {v v' : JVal} :
-      lookup k o = some v → Dev v v' → Dev (.obj o) (.obj (insert k v' o))
+      lookup k o = some v → Dev v v' → Dev (.obj o) (.obj (JVal.insert k v' o))
   | inIdx {xs zs : List JVal} {x x' : JVal} :
       Dev x x' → Dev (.arr (xs ++ x :: zs)) (.arr (xs ++ x' :: zs))
 
 theorem lookup_erase_self : ∀ {o : List (String × JVal)} {k : String},
-    nodupKeys o = true → lookup k (erase k o) = none
+    nodupKeys o = true → lookup k (JVal.erase k o) = none
   | [], _, _ => rfl
   | (k', v') :: rest, k, hn => by
     simp only [nodupKeys, Bool.and_eq_true] at hn
-    simp only [erase]
+    simp only [JVal.erase]
     split
     · rename_i hk; subst hk
       cases h : lookup k' rest with
@@ -722,10 +727,10 @@ theorem lookup_append_new : ∀ {o : List (String × JVal)} {k : String} {v : JV
       exact lookup_append_new h
 
 theorem lookup_insert_self : ∀ {o : List (String × JVal)} {k : String} {v : JVal},
-    lookup k (insert k v o) = some v
-  | [], _, _ => by simp [insert, lookup]
+    lookup k (JVal.insert k v o) = some v
+  | [], _, _ => by simp [JVal.insert, lookup]
   | (k', v') :: rest, k, v => by
-    simp only [insert]
+    simp only [JVal.insert]
     split
     · simp [lookup]
     · rename_i hk
@@ -733,11 +738,11 @@ theorem lookup_insert_self : ∀ {o : List (String × JVal)} {k : String} {v : J
       exact lookup_insert_self
 
 theorem noDirO_insert : ∀ {o : List (String × JVal)} {k : String} {v : JVal},
-    noDirO o = true → isDirective k = false → noDir v = true → noDirO (insert k v o) = true
-  | [], _, _, _, hk, hv => by simp [insert, noDirO, hk, hv]
+    noDirO o = true → isDirective k = false → noDir v = true → noDirO (JVal.insert k v o) = true
+  | [], _, _, _, hk, hv => by simp [JVal.insert, noDirO, hk, hv]
   | (k', v') :: rest, k, v, hn, hk, hv => by
     simp only [noDirO, Bool.and_eq_true, Bool.not_eq_true'] at hn
-    simp only [insert]
+    simp only [JVal.insert]
     split
     · simp [noDirO, hk, hv, hn.2]
     · simp only [noDirO, Bool.and_eq_true, Bool.not_eq_true']
